@@ -590,3 +590,17 @@ Proof.
   - eapply filter_refs_sound; eauto. apply Hhdr. exact (proj1 Hocc).
   - eapply covered_refs; eauto. apply Hhdr. exact (proj1 Hocc).
 Qed.
+
+(* a filter that records every reference the converter resolves never loses a needed DIE *)
+Lemma complete_filter_ok : forall (dbg : bool) (req : N -> bool) (units : list unitd),
+  wf_offsets units -> wf_layout units ->
+  (exists out0, convert_all units = Ok out0) ->
+  exists S out,
+    reserved conv_refs dbg req units = Ok S /\
+    convert_filtered conv_refs dbg req units = Ok out /\
+    (forall x, In x (map fst out) <-> In x S) /\
+    (strict_sorted (section_offsets units) -> map fst out = S).
+Proof.
+  intros dbg req units Hwf Hlay Hall. apply filtered_conversion_ok; auto.
+  intros u e par s _ _. apply incl_refl.
+Qed.
